@@ -675,6 +675,72 @@ class SymExec:
                             f"({type(s).__name__})")
 
 
+MUTATORS = ("pop", "popitem", "clear", "update", "setdefault", "__setitem__", "__delitem__", "add", "discard", "remove",
+            "append", "extend", "insert")
+
+
+class EffectExec(SymExec):
+    """SymExec for code that acts on object state: statements executed for their effect are kept, in
+    execution order, among the facts of the path instead of being refused —
+
+      ("store", container, key, value)      `container[key] = value`
+      ("effect", "recv.method", recv, args) `recv.method(args…)` as a statement (any other call: recv None)
+
+    and a container is *versioned*: once a path has stored into it / called a mutating method on it, later
+    reads through it (`c[k]`, `c.get(k)`, `c.attr`) are written `c@n…`, so a value read before the store and a
+    value read after it are different terms whatever local names carry them (a comparison against the
+    entry that was just overwritten is not a comparison against the old entry)."""
+
+    _cur: tuple[Fact, ...] = ()
+
+    def mutations(self, name: str, facts: tuple[Fact, ...] | None = None) -> int:
+        fs = self._cur if facts is None else facts
+        return sum(1 for f in fs if isinstance(f, tuple) and f and (
+            (f[0] == "store" and f[1] == name)
+            or (f[0] == "effect" and f[2] == name and f[1].rsplit(".", 1)[-1] in MUTATORS)))
+
+    def _name_of(self, base: Poly) -> str:
+        a = super()._name_of(base)
+        n = self.mutations(a)
+        return f"{a}@{n}" if n else a
+
+    def cond(self, e: ast.AST, env: Env) -> Fact:
+        """A helper's `return True` / `return False` tested by the caller decides the branch."""
+        c = super().cond(e, env)
+        if isinstance(c, tuple) and len(c) == 2 and c[0] in ("truthy", "falsy") and c[1] in ("True", "False"):
+            return ("const", (c[0] == "truthy") == (c[1] == "True"))
+        if isinstance(c, tuple) and len(c) == 2 and c[0] in ("truthy", "falsy") and c[1] == "None":
+            return ("const", c[0] == "falsy")
+        return c
+
+    def _stmt(self, s: ast.stmt, env: Env, facts: tuple[Fact, ...], nxt: Any, ctl: Any) -> None:
+        self._cur = facts  # every evaluation of a statement happens before its continuation runs
+        if isinstance(s, ast.Expr) and isinstance(s.value, ast.Call) and not is_logging_call(s.value) \
+                and not self._is_helper_call(s.value):
+            c = s.value
+            if any(isinstance(a, ast.Starred) for a in c.args) or any(k.arg is None for k in c.keywords):
+                raise AnalysisError(f"{self.fn_stack[-1].qual}: unsupported expression statement `{u(s)[:80]}`")
+            args = tuple(repr(self.ev(a, env)) for a in c.args) + tuple(
+                f"{k.arg}={self.ev(k.value, env)!r}" for k in c.keywords)
+            if isinstance(c.func, ast.Attribute):
+                recv = SymExec._name_of(self, self.ev(c.func.value, env))
+                return nxt(env, facts + (("effect", f"{recv}.{c.func.attr}", recv, args),))
+            return nxt(env, facts + (("effect", u(c.func), None, args),))
+        if isinstance(s, ast.Assign) and len(s.targets) == 1 and isinstance(s.targets[0], ast.Subscript) \
+                and not isinstance(s.targets[0].slice, ast.Slice):
+            t = s.targets[0]
+            base = SymExec._name_of(self, self.ev(t.value, env))
+            key = repr(self.ev(t.slice, env))
+
+            def stored(v: Poly, f2: tuple[Fact, ...]) -> None:
+                nxt(env, f2 + (("store", base, key, repr(v)),))
+
+            if isinstance(s.value, ast.Call) and self._is_helper_call(s.value):
+                return self._run_helper(s.value, env, facts, stored, ctl)
+            return stored(self.ev(s.value, env), facts)
+        return super()._stmt(s, env, facts, nxt, ctl)
+
+
 def fmt(c: Fact) -> str:
     """Deterministic text of a canonical condition."""
     if isinstance(c, tuple) and c and c[0] in ("and", "or"):
